@@ -236,6 +236,53 @@ func checkC14(c *Ctx) {
 		}
 	}
 
+	// ---- C14.9 "or selection fails with an error": a generation can be present with a nil configuration (a retired
+	// generation is stored as nil), so what Select takes from the generation table is tested against nil - not merely
+	// for presence - before it is handed on or dereferenced
+	r.Rule("C14.9", "Select tests the generation's configuration against nil before using it", 1)
+	if f := c.fn("C14.9", ph, "PhantomIPSelector", "Select"); f != nil {
+		n := 0
+		eachInstr(f, func(in ssa.Instruction) {
+			var v ssa.Value
+			switch x := in.(type) {
+			case *ssa.Call:
+				if calleeShort(&x.Call) == "GetSubnetsByGeneration" {
+					v = x
+				}
+			case *ssa.Extract:
+				if lk, ok := x.Tuple.(*ssa.Lookup); ok && x.Index == 0 && strings.HasSuffix(pathOf(lk.X), ".Networks") {
+					v = x
+				}
+			case *ssa.Lookup:
+				if !x.CommaOk && strings.HasSuffix(pathOf(x.X), ".Networks") {
+					v = x
+				}
+			}
+			if v == nil || v.Referrers() == nil {
+				return
+			}
+			vp := pathOf(v)
+			for _, ref := range *v.Referrers() {
+				switch ref.(type) {
+				case *ssa.BinOp, *ssa.DebugRef:
+					continue
+				}
+				if _, isIf := ref.(*ssa.If); isIf {
+					continue
+				}
+				n++
+				g := guardedM(f, ref, func(cnd string, pol bool) bool {
+					return !pol && strings.Contains(cnd, "nil") && strings.Contains(cnd, vp)
+				})
+				r.Check(g, "C14.9", "Select: "+firstN(vp, 50)+" used only when it is not nil", ref.Pos(), fnName(f), "dominated by a non-nil test of the same value",
+					"the configuration taken from the generation table is used without a nil test (a presence test does not help: a retired generation is present with a nil configuration): selecting for it dereferences nil and panics instead of failing with an error")
+			}
+		})
+		if n == 0 {
+			r.Unk("C14.9", "Select: use of the generation's configuration", f.Pos(), fnName(f), "no lookup of the generation table found")
+		}
+	}
+
 	// ---- C14.7 a subnet carries the port flag of the group it was configured in: the flag stored with a parsed subnet is
 	// the RandomizeDstPort of the message its CIDR strings come from, and that message is a group of the configuration
 	// itself (not a message assembled from several groups, whose single flag is whichever group was merged last)
